@@ -48,7 +48,7 @@ def run(rep, tier, seed):
     rep.ob('correspondence:integrate-fixed', f"{c.get('cases', 0)} runs / {c.get('steps', 0)} steps", c['ok'],
            json.dumps(c.get('mismatches') or c.get('error', ''), default=str)[:1500])
     rep.cov['correspondence'] = {k: v for k, v in c.items() if k != 'mismatches'}
-    fails, st = osde.c13_search(rng, 60 if tier == 'quick' else 1500)
+    fails, st = core.safe(osde.c13_search, rng, 60 if tier == 'quick' else 1500)
     rep.ob('oracle:chunked-vs-one-shot-on-real-sdeint', f"{st['evals']} problems / {st['chunks']} chunks", not fails,
            json.dumps(fails[:1], default=str)[:1200])
     rep.cov['real_code_oracle'] = st
